@@ -34,7 +34,7 @@ CLASSES = {
     "C08": {"ready-before-sync", "publish-before-ready", "parent-not-ready", "ready-before-parent", "deferred-ready-without-filter",
             "ready-unsynced", "ready-twice", "event-before-ready", "emit-before-ready", "ready-observed-not-declared", "list-not-snapshot",
             "callback-before-ready", "flag-mismatch"},
-    "C10": ORDER | {"drop-not-full", "drop-unknown", "cache-not-current", "close-hangs", "shutdown-timeout", "api-call-blocks"},
+    "C10": ORDER | {"drop-not-full", "drop-unknown", "cache-not-current", "filter-not-quiescent", "list-not-snapshot", "close-hangs", "shutdown-timeout", "api-call-blocks"},
     "C11": {"stopped-outside-closed-subtree", "cascade-incomplete", "shutdown-timeout", "closed-before-drained", "close-hangs", "api-call-blocks"} | ORDER,
     "C12": {"goroutine-leak", "shutdown-timeout", "close-hangs", "call-blocks-after-done", "call-fails-after-done", "closed-before-drained", "api-call-blocks",
             "racing-call-zombie"},
@@ -46,7 +46,7 @@ VARIANTS = {
     "C03": [("ctl:relist", 1.0)],
     "C04": [("ctl:watch", 1.0)],
     "C05": [("mixed", 0.7), ("close", 0.3)],
-    "C06": [("refilter", 0.6), ("mixed", 0.4)],
+    "C06": [("refilter", 0.5), ("mixed", 0.35), ("overflow", 0.15)],
     "C07": [("refilter", 1.0)],
     "C08": [("refilter", 0.5), ("mixed", 0.3), ("monitor", 0.2)],
     "C10": [("overflow", 1.0)],
@@ -186,6 +186,11 @@ def check_tree(prop, tier, replay):
     nscen, lines, samples, allcls = run_tree(prop, tier, res, want, VARIANTS[prop], BUDGET[tier])
     if prop == "C15":
         race_run(res, tier)
+    if prop == "C08":
+        # "... and hence of a join": the joins' readiness on real typed controllers
+        import fam_filters
+        js = fam_filters.run_joins(res, tier, {"join-ready-before-sides", "join-content-before-ready", "join-not-ready", "crash"})
+        nscen += js["scenarios"]
     modes = None
     if prop in ("C06", "C07", "C08"):
         # spec -> code: every stimulus order enumerated by TLC, replayed on the real filterSubscription
